@@ -364,7 +364,7 @@ func u32p(v uint32) *uint32 { return &v }
 func rawCases(c *core.Ctx, emit func(class, desc string, raw []byte)) {
 	r := c.Rng
 	// structurally valid quotes with various variable-part lengths
-	authLens := []int{0, 1, 2, 32, 255, 256, 1000, 65535}
+	authLens := []int{0, 1, 2, 32, 255, 256, 1000, 65533, 65534, 65535}
 	chainLens := []int{0, 1, 100, 3000}
 	extraLens := []int{0, 1, 17}
 	for _, al := range authLens {
